@@ -10,10 +10,10 @@ import VrlModel.Conv.Int
 namespace Conv.Num
 open Conv
 
-/-- `abs(value)`: `i64::abs` overflows at `i64::MIN` (overflow checks on: panic);
+/-- `abs(value)`: `i64::wrapping_abs` (the magnitude; `i64::MIN` wraps to itself);
     `f64::abs` clears the sign bit (`from_f64_or_zero` never sees a NaN here). -/
 def abs : Value → Res Value
-  | .int i => if i = i64Min then .panic else .ok (.int (if i < 0 then -i else i))
+  | .int i => if i = i64Min then .ok (.int i64Min) else .ok (.int (if i < 0 then -i else i))
   | .float bits => .ok (.float (bits % 9223372036854775808))
   | _ => .err
 
